@@ -93,6 +93,8 @@ def gen_world(rng: random.Random):
                       "ordmin": rng.choice([0, 0, 0, 1, 2])})
         else:
             nx = rng.choice([128, 256]) if cls in ("EFDD", "FSDD") else rng.choice([64, 128, 256])
+            if rng.random() < 0.3:
+                nx -= 1  # an odd segment length is legal: the frequency axis then stops short of fs/2
             w.update({"nxseg": nx, "method_SD": rng.choice(["per", "cor"])})
             df = fs / nx
             if cls in ("EFDD", "FSDD"):
@@ -103,7 +105,7 @@ def gen_world(rng: random.Random):
                 w["mpe_kw"] = {"DF": round(rng.uniform(0.4, 4) * df, 6)}
     else:
         if variant == "FDD":
-            w.update({"nf": rng.randint(9, 129), "nch": rng.randint(2, 4)})
+            w.update({"nf": rng.randint(9, 129), "nch": rng.randint(2, 4), "odd_nxseg": rng.random() < 0.3})
             w["mpe_kw"] = {"DF": round(rng.uniform(0.4, 4) * (fs / 2) / (w["nf"] - 1), 6)}
         else:
             w.update({"nrows": rng.randint(1, 12), "ncols": rng.randint(2, 12), "nch": rng.randint(2, 4),
@@ -182,6 +184,9 @@ def gen_spectrum(w):
     rng = np.random.Generator(np.random.PCG64(w["seed"]))
     nf, nch = w["nf"], w["nch"]
     freq = np.linspace(0.0, w["fs"] / 2, nf)
+    if w.get("odd_nxseg"):
+        # what an odd segment length gives: lines k*fs/nxseg, k = 0..(nxseg-1)/2 - the axis stops short of fs/2
+        freq = np.arange(nf) * (w["fs"] / (2 * nf - 1))
     s = np.sort(rng.uniform(0.01, 1.0, size=(nch, nf)), axis=0)[::-1]
     for _ in range(rng.integers(1, 4)):
         k = rng.integers(1, nf - 1) if nf > 2 else 0
@@ -226,7 +231,7 @@ def build(w):
     data = np.zeros((16, w["nch"]))
     ss = SingleSetup(data, fs=fs)
     if w["variant"] == "FDD":
-        alg = cls(name="alg", nxseg=2 * (w["nf"] - 1))
+        alg = cls(name="alg", nxseg=2 * w["nf"] - 1 if w.get("odd_nxseg") else 2 * (w["nf"] - 1))
         ss.add_algorithms(alg)
         freq, Sy, S_val, S_vec = gen_spectrum(w)
         alg._set_result(FDDResult(freq=freq, Sy=Sy, S_val=S_val, S_vec=S_vec))
